@@ -132,7 +132,7 @@ package collections
 //@ func (*TTLMap).get
 //@   props C03 C13 C14
 //@   nopanic
-//@   holds m.mutex
+//@   holds_read m.mutex
 //@   readsclock
 //@   requires m != nil && repOK(m)
 //@   modifies nothing
